@@ -65,7 +65,9 @@ Record frame_ok (fr : frame) (pr : promise) (below : list zframe) : Prop := {
   K_pass : forall y fs, In (UPass y fs) (fund fr) -> fisfunc fr = false /\ pass_ok y fs ((fr, pr) :: below) ;
   K_dnodup : NoDup (dnames fr) ;
   K_pnodup : NoDup (pend_names (fund fr)) ;
-  K_narg : fnarg fr = O ;
+  (* the uses made in the parameter list (the first NumArgUses entries) are never declared in this scope *)
+  K_narg : (fnarg fr <= length (fund fr))%nat /\
+           forall y, In (UPend y) (firstn (fnarg fr) (fund fr)) -> ~ In y (pnames pr) ;
   K_fid : forall g, In g below -> (fid (fst g) < fid fr)%nat
 }.
 
@@ -219,7 +221,8 @@ Lemma L_use a fr pr rest x :
     a_use a x = ARun a' /\ AInv a' ((fr', pr) :: rest) /\
     fid fr' = fid fr /\ fisfunc fr' = fisfunc fr /\ fdecl fr' = fdecl fr /\
     alog a' = L :: alog a /\ anext a' = anext a /\
-    final (env_of ((fr, pr) :: rest)) L = lookup (env_of ((fr, pr) :: rest)) x.
+    final (env_of ((fr, pr) :: rest)) L = lookup (env_of ((fr, pr) :: rest)) x /\
+    (forall e, In e (fund fr') -> In e (fund fr) \/ e = UPend x).
 Proof.
   intros [As Af An Al]. cbn [map fst] in As. destruct Af as [Kf Krest].
   unfold a_use. rewrite As.
@@ -230,7 +233,8 @@ Proof.
     split; [reflexivity|]. split.
     { constructor; [reflexivity|split; assumption|exact An|].
       intros s y [E|H]; [discriminate|]. apply Al. exact H. }
-    repeat split; try reflexivity. cbn [final env_of map fst snd]. symmetry. apply lookup_head. exact Hp.
+    split; [reflexivity|]. split; [reflexivity|]. split; [reflexivity|]. split; [reflexivity|]. split; [reflexivity|].
+    split; [cbn [final env_of map fst snd]; symmetry; apply lookup_head; exact Hp|intros e He; left; exact He].
   - destruct (a_find_und fr x) as [[y|y fs]|] eqn:Eu.
     + (* used before here *)
       destruct (a_find_und_some _ _ _ Eu) as [Hin Hn]. cbn in Hn. subst y.
@@ -238,7 +242,8 @@ Proof.
       split; [reflexivity|]. split.
       { constructor; [reflexivity|split; assumption|exact An|].
         intros s y [E|H]; [|apply Al; exact H]. inversion E; subst. exists (fr, pr). split; [left; reflexivity|]. split; [reflexivity|exact Hin]. }
-      repeat split; try reflexivity. cbn [final env_of map fst snd]. rewrite drop_to_head. reflexivity.
+      split; [reflexivity|]. split; [reflexivity|]. split; [reflexivity|]. split; [reflexivity|]. split; [reflexivity|].
+      split; [cbn [final env_of map fst snd]; rewrite drop_to_head; reflexivity|intros e He; left; exact He].
     + (* a declaration passed through this block *)
       destruct (a_find_und_some _ _ _ Eu) as [Hin Hn]. cbn in Hn. subst y.
       destruct (K_pass _ _ _ Kf x fs Hin) as [_ Hp].
@@ -246,7 +251,8 @@ Proof.
       split; [reflexivity|]. split.
       { constructor; [reflexivity|split; assumption|exact An|].
         intros s y [E|H]; [discriminate|]. apply Al. exact H. }
-      repeat split; try reflexivity. cbn [final]. symmetry. apply lookup_pass. exact Hp.
+      split; [reflexivity|]. split; [reflexivity|]. split; [reflexivity|]. split; [reflexivity|]. split; [reflexivity|].
+      split; [cbn [final]; symmetry; apply lookup_pass; exact Hp|intros e He; left; exact He].
     + (* first use *)
       set (fr' := set_fund fr (fund fr ++ [UPend x])).
       exists (mkA (fr' :: map fst rest) (anext a) (LPend (fid fr) x :: alog a)), fr', (LPend (fid fr) x).
@@ -259,6 +265,8 @@ Proof.
             exact (K4 y fs Hy).
           + cbn [fund fr' set_fund]. rewrite pend_names_app. cbn. apply nodup_app_last; [exact K6|].
             intros Hin. apply in_pend_names in Hin. apply (a_find_und_none _ _ Eu _ Hin). reflexivity.
+          + cbn [fund fnarg fr' set_fund]. destruct K7 as [K7a K7b]. split; [rewrite app_length; lia|].
+            rewrite firstn_app. replace (fnarg fr - length (fund fr))%nat with O by lia. cbn [firstn]. rewrite app_nil_r. exact K7b.
         - intros fp [<-|H]; [apply (An (fr, pr)); left; reflexivity|apply An; right; exact H].
         - intros s y [E|H].
           + inversion E; subst. exists (fr', pr). split; [left; reflexivity|]. split; [reflexivity|].
@@ -266,7 +274,9 @@ Proof.
           + destruct (Al s y H) as ([g pg] & Hg & Hs & Hu). destruct Hg as [Eg|Hg].
             * injection Eg as E1 E2. subst g pg. exists (fr', pr). split; [left; reflexivity|]. split; [exact Hs|]. cbn. apply in_app_last. left. exact Hu.
             * exists (g, pg). split; [right; exact Hg|]. split; assumption. }
-      repeat split; try reflexivity. cbn [final env_of map fst snd]. rewrite drop_to_head. reflexivity.
+      split; [reflexivity|]. split; [reflexivity|]. split; [reflexivity|]. split; [reflexivity|]. split; [reflexivity|].
+      split; [cbn [final env_of map fst snd]; rewrite drop_to_head; reflexivity|].
+      intros e He. cbn [fund fr' set_fund] in He. apply in_app_last in He. exact He.
 Qed.
 
 (* ---- Enter ------------------------------------------------------------------------------------------------ *)
@@ -287,18 +297,29 @@ Proof.
     + intros y fs [].
     + constructor.
     + constructor.
-    + reflexivity.
+    + split; [lia|intros y []].
     + intros g Hg. apply An. exact Hg.
   - intros fp [<-|H]; cbn; [lia|]. specialize (An fp H). lia.
   - intros s x H. destruct (Al s x H) as (fp & H1 & H2 & H3). exists fp. split; [right; exact H1|]. split; assumption.
 Qed.
 
-(* ---- MarkFuncArgs while nothing has been used in the parameter list ---------------------------------------- *)
+(* ---- MarkFuncArgs: every use made so far in this scope is of a name the scope will not declare -------------- *)
 Lemma L_mark a fr pr rest :
-  AInv a ((fr, pr) :: rest) -> fund fr = [] ->
-  a_mark_args a = ARun a.
+  AInv a ((fr, pr) :: rest) -> (forall y, In (UPend y) (fund fr) -> ~ In y (pnames pr)) ->
+  exists a' fr',
+    a_mark_args a = ARun a' /\ AInv a' ((fr', pr) :: rest) /\
+    fid fr' = fid fr /\ fisfunc fr' = fisfunc fr /\ fdecl fr' = fdecl fr /\ fund fr' = fund fr /\
+    alog a' = alog a /\ anext a' = anext a.
 Proof.
-  intros [As Af An Al] Hf. destruct Af as [Kf _]. unfold a_mark_args. rewrite As. cbn [map fst].
-  rewrite Hf. cbn [length]. rewrite <- (K_narg _ _ _ Kf).
-  destruct a as [stk nx lg]. cbn in *. rewrite As. rewrite <- Hf. destruct fr; reflexivity.
+  intros [As Af An Al] Hf. destruct Af as [Kf Krest]. unfold a_mark_args. rewrite As. cbn [map fst].
+  set (fr' := mkF (fid fr) (fisfunc fr) (fdecl fr) (fund fr) (length (fund fr))).
+  exists (mkA (fr' :: map fst rest) (anext a) (alog a)), fr'. split; [reflexivity|]. split.
+  { constructor; [reflexivity| | |].
+    - split; [|exact Krest]. destruct Kf as [K1 K2 K3 K4 K5 K6 K7 K8]. constructor; try assumption.
+      cbn [fnarg fund fr']. split; [lia|]. rewrite firstn_all. exact Hf.
+    - intros fp [<-|H]; [apply (An (fr, pr)); left; reflexivity|apply An; right; exact H].
+    - intros s y H. destruct (Al s y H) as ([g pg] & Hg & Hs & Hu). destruct Hg as [Eg|Hg].
+      + injection Eg as E1 E2. subst g pg. exists (fr', pr). split; [left; reflexivity|]. split; [exact Hs|exact Hu].
+      + exists (g, pg). split; [right; exact Hg|]. split; assumption. }
+  repeat split; reflexivity.
 Qed.
